@@ -21,7 +21,7 @@ CHECK = {
     "units": [
         {
             # the real runCommand path: one side a real OS process (the test binary re-executed)
-            "name": "c05-osproc", "pkg": CC, "harness": H + ["connectconformance/osproc_test.go", "connectconformance/c10_test.go"],
+            "name": "c05-osproc", "pkg": CC, "overlap": True, "harness": H + ["connectconformance/osproc_test.go", "connectconformance/c10_test.go"],
             "test": "^TestVerifOSProcRun$",
             "shards": {"quick": 28, "thorough": 32},  # the runs mostly sleep (the runner's 5-20 s timeouts), so more shards than cores
             "budget_s": {"quick": 120, "thorough": 600},
